@@ -25,8 +25,16 @@ CHECKS = {
   "C15": dict(level="model_checking", design="3.1, 4 (C15)",
       text="DeadIsAbsorbing is checked as an action property of MxSession; traces of real sessions hit by every error-inducing event (alerts in/out, corrupt/truncated/garbage records, illegal messages) at every stop point followed by continuations (genuine next records, replays, sends, closure) are validated: after death nothing may be accepted, delivered or encrypted and calls must report error/close.",
       technique="TLA+ spec MxSession checked by TLC + trace validation of mxdrive executions (MxSession_Trace)"),
+  "C02": dict(level="model_checking", design="3.2, 4 (C02)",
+      text="MxChannel (sender, in-band key change, attacker edit scripts drop/dup/swap/modify/replay/inject, receiver) is model-checked for Prefix and TamperKills over all edit scripts within the bounds; on the implementation, sampled edit scripts and bit flips (every bit of a short record in the thorough tier) per suite family x version are run on established connections and every trace is validated against MxChannel_Trace (delivery continues the peer's byte stream contiguously; nothing from a non-authentic record; a failing record is fatal on TLS) and MxSession_Trace.",
+      technique="TLA+ spec MxChannel checked by TLC + trace validation of mxdrive executions (MxChannel_Trace, MxSession_Trace)"),
+  "C17": dict(level="model_checking", design="3.2, 4 (C17)",
+      text="NonceFresh and SeqMonotone are invariants of MxChannel (sealing with in-band key change); on the implementation every AEAD seal of every run is observed at the primitive (key fingerprint, nonce, plaintext digest) through link-time wrappers and validated by MxChannel_Trace: a repeated (key, nonce) must be a byte-identical DTLS retransmission, sequence numbers strictly increase per key, each CBC record has a fresh PRNG draw and no explicit IV repeats on the wire. Scenarios: mixed sends/alerts/closure/tickets per suite, DTLS loss+timer schedules incl. loss of the final flight.",
+      technique="TLA+ spec MxChannel checked by TLC + trace validation of every seal observed via link-time wrappers (MxChannel_Trace)"),
 }
-NOTES = {"C01": SESSION_NOTE, "C06": SESSION_NOTE, "C15": SESSION_NOTE}
+CHAN_NOTE = ("Trusted base: TLC; link-time wrappers around psAesInitGCM/psAesEncryptGCM/psChacha20Poly1305Ietf*/psGetPrngLocked and the guarded seal hook are the observation points; "
+             "the driver compares delivered bytes with the peer application's stream; authenticity oracle as for C01. Bounds: model MaxMsgs/MaxEdits/MaxPhases (see cfg); implementation: sampled scenarios per suite family x version.")
+NOTES = {"C01": SESSION_NOTE, "C06": SESSION_NOTE, "C15": SESSION_NOTE, "C02": CHAN_NOTE, "C17": CHAN_NOTE}
 
 def main():
     hooks_commits = subprocess.run(["git", "-C", "/repo", "log", "--format=%h %s", "--grep=^verif:"], capture_output=True, text=True).stdout.strip().splitlines()
